@@ -337,10 +337,9 @@ class EReject(Engine):
             else:
                 v2 = ev.get('v2', 0) if isinstance(ev.get('v2', 0), int) else 0
                 ok2 = in_range(d.name, d.bitlength, v2)
-                # extend applies items one by one: the statement makes no atomicity promise across several values,
-                # so only the all-valid / first-invalid cases get a verdict
+                # a value that does not fit is rejected and nothing changes, wherever it stands in the iterable
                 if expect and not ok2:
-                    expect = None
+                    expect = False
                 elif expect and ok2:
                     want_len = len(before['arr']) + 2 * d.bitlength
                 st, r = call(self.arr.extend, [v, v2])
